@@ -50,7 +50,7 @@ theorem tdName_structBlk (enums : List EnumDecl) (t : TableD F) (l : StructLay) 
 structure PSOK (d : Doc F) (PS : List (TableD F × StructLay)) : Prop where
   fst : PS.map (·.1) = d.tables
   ok : ∀ p ∈ PS, structLayOK d.enums p.1 p.2 = true
-  nl : ∀ p ∈ PS, declNlOK p.2.cols = true
+  line : ∀ p ∈ PS, declLineOK d.enums p.1.cols p.2.cols = true
 
 theorem ps_mem_table (d : Doc F) (PS : List (TableD F × StructLay)) (h : PSOK d PS) (p) (hp : p ∈ PS) :
     p.1 ∈ d.tables := by
@@ -196,27 +196,27 @@ def layStructs (d : Doc F) (lay : Layout) : List TDef :=
 def layEnums (d : Doc F) (lay : Layout) : List TDef :=
   (edefPairs d.enums lay.slots).map (fun p => enumTD p.1 p.2)
 
-theorem layouts_ok (io : FloatIO F) (d : Doc F) (lay : Layout) (hl : layoutOK2 io d lay = true) :
+theorem layouts_ok (io : FloatIO F) (d : Doc F) (lay : Layout) (hl : layoutOKW io d lay = true) :
     PSOK d (sdefPairs d.tables lay.slots) ∧ ESOK d (edefPairs d.enums lay.slots) := by
-  simp only [layoutOK2, Bool.and_eq_true] at hl
+  simp only [layoutOKW, Bool.and_eq_true] at hl
   obtain ⟨hlo, hnl⟩ := hl
   have hso : slotsOK io d (initRSt d) lay.slots = true := hlo
   obtain ⟨p1, p2, p3, p4⟩ := pairs_ok io d lay.slots _ hso
-  exact ⟨⟨p1, p2, pairs_nl _ _ hnl⟩, ⟨p3, p4⟩⟩
+  exact ⟨⟨p1, p2, pairs_line _ _ _ hnl⟩, ⟨p3, p4⟩⟩
 
 /-- **pieces (1)+(2), file level**: the front half of `_parse` on a file in any layout - after
 continuation joining, typedef extraction finds exactly the struct and enum definitions, in slot order,
 cuts exactly them out, the symbol table lists every table with its columns, and what is left for
 the line loop is the chunk-wise residual text -/
-theorem front_lay (io : FloatIO F) (h1 : H1 io) (d : Doc F) (lay : Layout) (text : Str)
-    (hd : docOK2 d = true) (hl : layoutOK2 io d lay = true) (hr : renders io d lay = some text) :
+theorem front_layW (io : FloatIO F) (h1 : H1 io) (d : Doc F) (lay : Layout) (text : Str)
+    (hd : docOK2 d = true) (hl : layoutOKW io d lay = true) (hr : renders io d lay = some text) :
     ∃ infos, slotInfos io d (initRSt d) lay.slots = some infos ∧ (∀ i ∈ infos, InfoOK io (laySpecs d) i) ∧
       front text = ⟨layStructs d lay, layEnums d lay,
         d.tables.map (fun t => (upper t.name, t.cols.map (·.name))),
         joinChunks lay.finalEol (residChunks infos)⟩ := by
   obtain ⟨he, het, ht, htn, hp, hpn⟩ := docOK2_props d hd
   obtain ⟨PSok, _⟩ := layouts_ok io d lay hl
-  simp only [layoutOK2, Bool.and_eq_true] at hl
+  simp only [layoutOKW, Bool.and_eq_true] at hl
   obtain ⟨hlo, hnl⟩ := hl
   obtain ⟨ltext, hlog, hj⟩ := PydlVerif.YannyLayCont.joinCont_renders io d lay text hd hlo hr
   unfold rendersLogical at hlog
@@ -253,14 +253,14 @@ theorem front_lay (io : FloatIO F) (h1 : H1 io) (d : Doc F) (lay : Layout) (text
 /-- **piece (4)**: the line loop over the residual text of a file in any layout - comment lines,
 blank lines, what is left of the definition lines, keyword lines and the data lines of all tables in
 ANY interleaving - records the keyword pairs in order and, per table, its rows in that table's order -/
-theorem loop_lay (io : FloatIO F) (d : Doc F) (lay : Layout) (hd : docOK2 d = true)
-    (hl : layoutOK2 io d lay = true) (infos : List (ChunkInfo F))
+theorem loop_layW (io : FloatIO F) (d : Doc F) (lay : Layout) (hd : docOK2 d = true)
+    (hl : layoutOKW io d lay = true) (infos : List (ChunkInfo F))
     (hsi : slotInfos io d (initRSt d) lay.slots = some infos) (hio : ∀ i ∈ infos, InfoOK io (laySpecs d) i) :
     lineLoop io (laySpecs d) ⟨[], d.tables.map (fun t => (upper t.name, []))⟩
       (splitNl (joinChunks lay.finalEol (residChunks infos))) =
       .ok ⟨d.hdr, d.tables.map (fun t => (upper t.name, t.rows))⟩ := by
   obtain ⟨_, _, _, htn, _, hpn⟩ := docOK2_props d hd
-  simp only [layoutOK2, Bool.and_eq_true] at hl
+  simp only [layoutOKW, Bool.and_eq_true] at hl
   have hso : slotsOK io d (initRSt d) lay.slots = true := hl.1
   have hfold := infos_fold io d htn lay.slots _ hso infos hsi [] (d.tables.map (fun _ => []))
     (by intro p hp'; cases hp') hpn
@@ -275,8 +275,8 @@ theorem loop_lay (io : FloatIO F) (d : Doc F) (lay : Layout) (hd : docOK2 d = tr
   exact hloop
 
 /-- **piece (2'), file level**: for every table, column typing from its laid-out definition -/
-theorem typing_file_lay (io : FloatIO F) (d : Doc F) (lay : Layout) (hd : docOK2 d = true)
-    (hl : layoutOK2 io d lay = true) :
+theorem typing_file_layW (io : FloatIO F) (d : Doc F) (lay : Layout) (hd : docOK2 d = true)
+    (hl : layoutOKW io d lay = true) :
     ∀ t ∈ d.tables,
       colSpecs ((layStructs d lay).map (·.text)) (upper t.name) (t.cols.map (·.name)) = .ok (t.cols.map specOfCol) ∧
       ∀ (k : Nat) (c : Col), t.cols[k]? = some c →
@@ -292,18 +292,18 @@ theorem typing_file_lay (io : FloatIO F) (d : Doc F) (lay : Layout) (hd : docOK2
   intro t hm
   have : t ∈ (sdefPairs d.tables lay.slots).map (·.1) := by rw [PSok.fst]; exact hm
   obtain ⟨p, hpm, rfl⟩ := List.mem_map.mp this
-  exact typing_lay d.enums he p.1 p.2 (ht p.1 hm) (PSok.ok p hpm) (PSok.nl p hpm) _
+  exact typing_layW d.enums he p.1 p.2 (ht p.1 hm) (PSok.ok p hpm) (PSok.line p hpm) _
     (select_lay d ht htn _ PSok p hpm) _ k1 k2
 
 /-- **file level**: a document of the domain `docOK2`, written in ANY layout of the domain
-`layoutOK2`, reads back as its canonical form (C01's reader `parseFile`) -/
-theorem parseFile_lay (io : FloatIO F) (h1 : H1 io) (d : Doc F) (lay : Layout) (text : Str)
-    (hd : docOK2 d = true) (hl : layoutOK2 io d lay = true) (hr : renders io d lay = some text) :
+`layoutOKW`, reads back as its canonical form (C01's reader `parseFile`) -/
+theorem parseFile_layW (io : FloatIO F) (h1 : H1 io) (d : Doc F) (lay : Layout) (text : Str)
+    (hd : docOK2 d = true) (hl : layoutOKW io d lay = true) (hr : renders io d lay = some text) :
     parseFile io text = .ok (canon d) := by
   obtain ⟨he, het, ht, htn, hp, hpn⟩ := docOK2_props d hd
-  obtain ⟨infos, hsi, hio, hfront⟩ := front_lay io h1 d lay text hd hl hr
-  have htyp := typing_file_lay io d lay hd hl
-  have hloop := loop_lay io d lay hd hl infos hsi hio
+  obtain ⟨infos, hsi, hio, hfront⟩ := front_layW io h1 d lay text hd hl hr
+  have htyp := typing_file_layW io d lay hd hl
+  have hloop := loop_layW io d lay hd hl infos hsi hio
   have hspecs : (d.tables.map (fun t => (upper t.name, t.cols.map (·.name)))).map
       (fun t => (t.1, colSpecs ((layStructs d lay).map (·.text)) t.1 t.2)) = laySpecs d := by
     unfold laySpecs
@@ -336,5 +336,28 @@ theorem parseFile_lay (io : FloatIO F) (h1 : H1 io) (d : Doc F) (lay : Layout) (
   unfold canon
   rw [hhdr]
   rfl
+
+/-! ### the statements of the first extension round (domain `layoutOK2` ⊆ `layoutOKW`) -/
+
+theorem front_lay (io : FloatIO F) (h1 : H1 io) (d : Doc F) (lay : Layout) (text : Str)
+    (hd : docOK2 d = true) (hl : layoutOK2 io d lay = true) (hr : renders io d lay = some text) :
+    ∃ infos, slotInfos io d (initRSt d) lay.slots = some infos ∧ (∀ i ∈ infos, InfoOK io (laySpecs d) i) ∧
+      front text = ⟨layStructs d lay, layEnums d lay,
+        d.tables.map (fun t => (upper t.name, t.cols.map (·.name))),
+        joinChunks lay.finalEol (residChunks infos)⟩ :=
+  front_layW io h1 d lay text hd (layoutOKW_of_OK2 io d lay hl) hr
+
+theorem loop_lay (io : FloatIO F) (d : Doc F) (lay : Layout) (hd : docOK2 d = true)
+    (hl : layoutOK2 io d lay = true) (infos : List (ChunkInfo F))
+    (hsi : slotInfos io d (initRSt d) lay.slots = some infos) (hio : ∀ i ∈ infos, InfoOK io (laySpecs d) i) :
+    lineLoop io (laySpecs d) ⟨[], d.tables.map (fun t => (upper t.name, []))⟩
+      (splitNl (joinChunks lay.finalEol (residChunks infos))) =
+      .ok ⟨d.hdr, d.tables.map (fun t => (upper t.name, t.rows))⟩ :=
+  loop_layW io d lay hd (layoutOKW_of_OK2 io d lay hl) infos hsi hio
+
+theorem parseFile_lay (io : FloatIO F) (h1 : H1 io) (d : Doc F) (lay : Layout) (text : Str)
+    (hd : docOK2 d = true) (hl : layoutOK2 io d lay = true) (hr : renders io d lay = some text) :
+    parseFile io text = .ok (canon d) :=
+  parseFile_layW io h1 d lay text hd (layoutOKW_of_OK2 io d lay hl) hr
 
 end PydlVerif.YannyLay
